@@ -320,7 +320,7 @@ func (x *Exec) wf(v Value, alloc *Term) *Term {
 			z := c.BVI(0, 64)
 			maxc := c.BVU(1<<48, 64)
 			fs = append(fs, c.IntCmp("<=", base, alloc), c.IntCmp(">=", base, c.IntLit(0)),
-				c.BVCmp("bvsle", z, off), c.BVCmp("bvsle", z, ln), c.BVCmp("bvsle", ln, cp), c.BVCmp("bvsle", cp, maxc), c.BVCmp("bvsle", off, maxc),
+				c.BVCmp("bvsle", z, off), c.BVCmp("bvsle", z, ln), c.BVCmp("bvsle", ln, cp), c.BVCmp("bvsle", cp, maxc), c.BVCmp("bvsle", off, maxc), c.BVCmp("bvsle", c.BVBin("bvadd", off, cp), maxc),
 				c.Implies(c.Eq(base, c.IntLit(0)), c.Eq(cp, z)))
 		case "pay":
 			fs = append(fs, c.IntCmp("<=", v.L[k], alloc))
